@@ -2,31 +2,31 @@
 """Regenerates /verif/MANIFEST.json from the table below (keeps it valid at all times)."""
 import json, subprocess, sys
 
-BUILT = sys.argv[1].split(",") if len(sys.argv) > 1 else []
+BUILT = sys.argv[1].split(",") if len(sys.argv) > 1 else ["C%02d" % i for i in range(1, 20)]
 
 P = {
- "C01": ("exploration", "5/C01", "proptest generation inside exhaustively enumerated configuration cells; round-trip through an independent ISO 18004 reference decoder; libFuzzer campaign with the same oracle (thorough)",
+ "C01": ("exploration", "5/C01", "proptest generation inside exhaustively enumerated configuration cells plus automatic-mask tie sweeps, block-boundary lengths and steered matrices; round-trip through an independent ISO 18004 reference decoder; libFuzzer campaign (fz_build) with the same oracle (thorough)",
          "Every (version, level, mask setting) combination is built in every run with generated boundary-biased payloads and must decode, with the independent reference decoder, to exactly one segment equal to the input. Exhaustive over configuration cells, sampled over payload content; no absence proof.",
          "Trusted: refmodel reference decoder (self-tested against the third-party qrcode crate on 480+ symbols, Table 9 identities), proptest."),
- "C02": ("exploration", "5/C02", "enumerated (version, level, mask) cells x generated payloads; syndrome oracle over an independently computed GF(256); generated error injection decoded by a reference Berlekamp-Massey RS decoder",
+ "C02": ("exploration", "5/C02", "enumerated (version, level, mask) cells x generated payloads, padded forced versions with block-boundary lengths; syndrome oracle over an independently computed GF(256); generated error injection decoded by a reference Berlekamp-Massey RS decoder; libFuzzer campaign (thorough)",
          "All 160 (version, level) x 8 masks are visited in every run: remainder bits zero, Table 9 block split, all syndromes zero, data-block order; up to floor(ec/2) corrupted codewords per block (generated positions/values, module flips in the matrix) must be corrected. Sampled over payloads and corruption patterns.",
          "Trusted: typed reference Table 9 (guarded by total-codeword identities and the qrcode-crate self-test), computed GF arithmetic, reference RS decoder (unit tested)."),
- "C03": ("exploration", "5/C03", "exhaustive enumeration of version x level x mask with generated payloads; differential against a function-pattern map drawn from the ISO figures",
+ "C03": ("exploration", "5/C03", "exhaustive enumeration of version x level x mask with generated payloads, plus random/tie/padded/steered cases; differential against a function-pattern map drawn from the ISO figures; libFuzzer campaign (thorough)",
          "Every coordinate of every symbol in all 40 x 4 x 9 configuration cells is compared with the payload-free reference map; the backing array beyond size*size must stay light/data. Payloads sampled.",
          "Trusted: refmodel geometry (finder/separator/timing/alignment/dark module), anchored by qrcode-crate symbols of all 40 versions."),
- "C04": ("exploration", "5/C04", "exhaustive enumeration of the 1280 forced (level, mask, version) cells plus generated forced/automatic option sets; BCH words computed by polynomial division",
+ "C04": ("exploration", "5/C04", "exhaustive enumeration of the 1280 forced (level, mask, version) cells plus generated forced/automatic option sets and an automatic-mask tie sweep; BCH words computed by polynomial division; physical mask identified by reference decoding; libFuzzer campaign (thorough)",
          "Both format copies and (v>=7) both version blocks are read at the ISO positions and compared with computed BCH codewords; reported fields must equal the physical content, forced options and the Q default; the named mask must be the applied one. Exhaustive over the forced cells, sampled over payloads/option subsets.",
          "Trusted: BCH generator polynomials and the ISO Figure 25 coordinate lists in refmodel (Annex C/D examples unit-tested; qrcode-crate self-test)."),
- "C05": ("exploration", "5/C05", "exhaustive enumeration of every length 0..=7200 x mode x level, all thresholds x forced versions; capacity-formula oracle; proptest for random tuples",
+ "C05": ("exploration", "5/C05", "exhaustive enumeration of every length 0..=7200 x mode x level, all thresholds x forced versions; capacity-formula oracle; proptest over arbitrary contents and option combinations; libFuzzer campaign (thorough)",
          "Decides version selection for every length up to beyond V40 capacity (86k builds per run), every threshold +-1 against forced versions, far-over-capacity lengths; Ok/Err kind, error variant, no panic, round trip at capacity.",
          "Trusted: capacity formula from geometry-derived codeword totals and typed Table 9; equals qrcode crate max_len for all 160 cells."),
- "C06": ("exploration", "5/C06", "enumerated (version, level, mode) cells x boundary lengths x generated payload families; byte-for-byte differential against a reference ISO 7.4 encoder",
+ "C06": ("exploration", "5/C06", "enumerated (version, level, mode) cells x boundary lengths x generated payload families, padded forced versions; byte-for-byte differential against a reference ISO 7.4 encoder; libFuzzer campaign (thorough)",
          "All data codewords of the symbol (read out and de-interleaved by the reference) must equal the reference bit stream including terminator, bit padding and pad codewords, in all 480 cells at lengths leaving 0..12 spare bits and all residues.",
          "Trusted: reference encoder (identical matrices to the qrcode crate in the self-test)."),
- "C07": ("exploration", "5/C07", "exhaustive single-non-zero-byte basis enumeration and generator-table identities through a guarded hook; proptest blocks (zero runs, multiples of g) against schoolbook GF(256) division",
+ "C07": ("exploration", "5/C07", "exhaustive single-non-zero-byte basis enumeration and generator-table identities through a guarded hook; proptest blocks (zero runs, multiples of g) against schoolbook GF(256) division; libFuzzer campaign fz_division, 16 M executions (thorough)",
          "Generator mapping exhaustively for 160 cells; the division routine on every position x value of unit blocks for the chosen block shapes (all shapes in thorough) and on generated blocks for every shape in use. Closest to a decision: the map is linear when the tables are right and any single table fault is hit by the basis.",
          "Hook verif_hooks::division/generator are plain re-exports. Trusted: shift-and-reduce GF multiplication with 0x11D."),
- "C08": ("exploration", "5/C08", "metamorphic relation between the 8 forced-mask builds of one generated payload, all 28 pairs x every coordinate, all 160 (version, level) cells",
+ "C08": ("exploration", "5/C08", "metamorphic relation between the 8 forced-mask builds and the automatic-mask build of one generated payload, all 28 pairs x every coordinate, all 160 (version, level) cells, tie sweep in small versions, steered matrices; libFuzzer campaign fz_masks (thorough)",
          "XOR of two builds must equal the XOR of the ISO Table 10 conditions on the encoding region, be free on format modules and zero elsewhere; un-masking by the named mask gives one matrix. Exhaustive over versions/levels/pairs/coordinates, payloads sampled.",
          "Trusted: Table 10 predicates (i=row, j=column) and region map in refmodel."),
  "C09": ("exploration", "5/C09", "exhaustive enumeration of all strings of length <= 2, all class patterns up to length 8, all bytes at all positions of context strings; reference classifier oracle; proptest long strings with intruders",
@@ -35,7 +35,7 @@ P = {
  "C10": ("exploration", "5/C10", "proptest over arbitrary byte strings x all option combinations with alphabet-mapped inputs for forced modes, catch_unwind oracle under overflow/debug assertions, watchdog with isolated re-run; libFuzzer campaign (thorough)",
          "No panic / overflow / out-of-bounds, only documented errors, termination; boundary lengths enumerated for all 480 cells, the rest sampled. Cannot prove absence.",
          "Harness profile enables debug-assertions and overflow-checks in fast_qr; hangs count only if reproduced twice in a child process."),
- "C11": ("exploration", "5/C11", "recorder hook in the selection loop; independent penalty model evaluated on each recorded candidate; arg-min oracle over generated payloads in all 160 cells, weighted to small versions",
+ "C11": ("exploration", "5/C11", "independent penalty model evaluated on candidates derived independently from the emitted symbol (two format-area conventions accepted); recorder hook for candidate identity; arg-min oracle over generated payloads in all 160 cells, tie-rich small versions, steered matrices, each after a generated same-thread prelude; libFuzzer campaign fz_masks (thorough)",
          "For every automatic build the 8 recorded candidates must be the 8 ISO masks on identical codewords and the emitted mask must minimise the documented penalty computed by an independent model; forced masks override. Model equals the crate's ranking score on all candidates of the repaired tree (calibration counter).",
          "Hook records the candidate as scored. Trusted: penalty model written from the crate's documentation and the property text; floor-percent reading of the 5% rule."),
  "C12": ("exploration", "5/C12", "proptest renderer configurations (shape programs, colours, margins, hostile image strings) x QR codes; roxmltree well-formedness and an SVG path interpreter mapping sub-paths one-to-one onto dark modules; libFuzzer campaign (thorough)",
@@ -44,13 +44,13 @@ P = {
  "C13": ("exploration", "5/C13", "enumerated shapes x versions x margins plus proptest colours/fit requests; pixel oracle (every pixel for squares at integer scale, centre sampling at >= 4 px/module) and independent PNG decode",
          "Pixmap side, dark/light/quiet-zone pixel colours and PNG equality for all 6 shapes; property asserted only in the domain it states (>=1 px exact for squares, >=4 px centres).",
          "resvg/usvg/tiny-skia are under test with fast_qr; png crate trusted; +-2/255 tolerance only for partially transparent backgrounds."),
- "C14": ("exploration", "5/C14", "model-based stateful generation: proptest op sequences run by an interpreter against a last-value-wins model; barrier-released multi-thread stress rounds compared with a single-threaded reference",
+ "C14": ("exploration", "5/C14", "model-based stateful generation: proptest op sequences (setters, builds, near-collision builds, renders) run by an interpreter against a last-value-wins model; references from a fresh builder, a fresh thread and a cold child process (asked when the specification-level model disagrees and for a sample); barrier-released multi-thread rounds incl. tight loops of small mixed-version builds; libFuzzer campaign fz_history (thorough)",
          "Histories of setters/builds/renders must agree with fresh canonical builds byte for byte; renderers must be stable, history-independent and must not modify the QR code; 1..16-thread rounds must reproduce the sequential results. Schedules are sampled by stress, not controlled.",
          "No scheduler control (stated limit); byte equality of the full 31 329-byte matrix and fields."),
  "C15": ("exploration", "5/C15", "exhaustive enumeration of version x level x mask, every coordinate; differential against the reference region map; user-callback observation through Shape::Command",
          "Every module's type label equals the image of its ISO region, data-label count equals the geometry formula, and a shape callback sees the same labels at (col+margin, row+margin). Exhaustive over cells/coordinates, payloads sampled.",
          "Trusted: refmodel region map."),
- "C16": ("exploration", "5/C16", "all 40 sizes x generated symbols; the text rendering is decoded back into half-rows and compared with the matrix and border",
+ "C16": ("exploration", "5/C16", "all 40 sizes x generated symbols and steered matrices (uniform rows with isolated modules at word-size boundaries, run patterns); the text rendering is decoded back into half-rows and compared with the matrix and border; libFuzzer campaign (thorough)",
          "Line count, line width, alphabet, exact module reproduction and the one-module light border on all four sides for every size.",
          "Half-row 0 above the top border is not constrained (outside the stated border)."),
  "C17": ("exploration", "5/C17", "proptest setter programs (any order, repetition, malformed colours, odd-length vectors, NaN/inf) x content strings against the native builder driven by a model of the program; host-compiled wasm.rs via a guarded hook; libFuzzer campaign (thorough)",
@@ -97,7 +97,9 @@ def main():
         },
         "engines": [
             {"name": "fqv", "path": "/verif/harness/fqv", "serves_properties": [c["property_id"] for c in checks],
-             "kind_free_text": "Rust binary: proptest strategies driven by a deterministic sharded runner (seeded from VERIF_SEED), exhaustive enumeration of the finite configuration dimensions, oracles from the independent reference model in /verif/harness/refmodel, shrinking to a JSON replay"},
+             "kind_free_text": "Rust library + binary: proptest strategies driven by a deterministic sharded runner (seeded from VERIF_SEED), exhaustive enumeration of the finite configuration dimensions, oracles from the independent reference model in /verif/harness/refmodel, shrinking to a JSON replay; replays regress/ sentinels and the fuzz seed corpus in every run"},
+            {"name": "fqv-fuzz", "path": "/verif/fuzz", "serves_properties": [c["property_id"] for c in checks if c["property_id"] != "C19"],
+             "kind_free_text": "cargo-fuzz / libFuzzer targets fz_build, fz_masks, fz_svg, fz_wasm, fz_division, fz_history whose bodies call the same oracles (fqv::fuzzrt); driven by fuzz/run_campaign.sh in the thorough tier: 16 processes, fixed -runs, seeds derived from VERIF_SEED"},
         ],
         "checks": checks,
         "not_applicable": na,
